@@ -47,13 +47,13 @@ CHECKS = {
                 technique="exhaustive enumeration of Z x group macros against member means recomputed from the public single-line API",
                 text="Complete enumeration of Z in [-3,125] x the 13 group line macros (energies) and 4 group macros (rates) in both configurations; group "
                      "membership is derived from macro names and the published Siegbahn aliases, member values come from the public single-line API. Every group "
-                     "column is executed three times in one process: value and error status must repeat.",
+                     "column is executed three times in one process: value and error status must repeat; every group query is also made without an error slot and must return the same bits.",
                 note="Differential oracle: an error common to a member line and its group is invisible here (C01 decides members). KO/KP pseudo members: two readings accepted."),
     "C12": dict(level="exploration", engine="ENUM", ref="4/C12",
                 technique="exhaustive evaluation of the real closed-form functions on a complete (E, theta, phi) grid against mutual identities and converged quadrature",
                 text="All seven closed-form functions are evaluated on the complete grid (61/241 energies over 12 decades x 33 theta x 8..17 phi) and every identity "
                      "named in the property is checked at every grid point, and again at theta0 +- delta next to 0, pi/2, pi and their images (delta 1e-2..1e-10) against "
-                     "cancellation-free closed forms, and at angles of 28 magnitudes up to 1e300 against their independently reduced images; the total is compared with a composite Gauss-Legendre quadrature of the library's "
+                     "cancellation-free closed forms, and at angles of 28 magnitudes up to 1e300 against their independently reduced images; MomentTransf against its closed form down to theta = 1e-300; the total is compared with a composite Gauss-Legendre quadrature of the library's "
                      "own differential form whose convergence is verified in the run.",
                 note="The continuum is represented by the grid, not covered; tolerances 1e-8 (quadrature), 1e-10..1e-12 (algebraic identities)."),
     "C05": dict(level="exploration", engine="ENUM", ref="4/C05",
@@ -106,7 +106,7 @@ CHECKS = {
                      "carries the name of a C parameter must stand at its position; Pascal imports must bind the symbol their identifier names; Pascal wrapper bodies, Fortran call "
                      "sites of BIND(C) interfaces and Cython def bodies must forward to their own C function with their own arguments in order; every struct member converted in a SWIG "
                      "out-typemap (Lua, Python, Perl, Ruby, PHP) must use a constructor of its C type; Fortran BIND(C) types and Pascal records list the members of the C structs in the "
-                     "same order with the same kind of type (17 layouts).",
+                     "same order with the same kind of type (17 layouts); integer literals are evaluated by the rules of their language (a leading zero is octal in Java).",
                 note="Non-C bindings are lexed, never compiled (no Fortran/Pascal/Cython/SWIG/IDL toolchain here); reshaped object wrappers (allocatable / dynamic-array copies) are not compared field by field."),
     "C14": dict(level="model_checking", engine="HIST", ref="4/C14",
                 technique="explicit-state BFS over operation histories of the real crystal-collection code (fork per state), to closure, against a dictionary model, repeated under ASan/UBSan",
@@ -115,7 +115,7 @@ CHECKS = {
                      "dictionary model (result, error, sorted duplicate-free content, recomputed volumes, independent copies, built-in collection intact, no live "
                      "blocks after teardown). The core alphabet (21 ops incl. capacity-crossing start states and colliding crystal files) is explored to closure, so "
                      "the result holds for histories of any length over it; a fourth alphabet with atom-less crystals (live atom buffer) and a fifth with additions that are rejected late "
-                     "(the library's own copy cannot be made) are also closed; wider alphabets and "
+                     "(the library's own copy cannot be made) and a sixth with 30-character names that share long prefixes are also closed; wider alphabets and "
                      "the built-in collection at its fixed capacity are depth bounded.",
                 note="Finite name and file alphabets; closure is relative to them. ReadFile is read as all-or-nothing. UBSan's nonnull-attribute check is disabled (bsearch on an empty array)."),
     "C15": dict(level="exploration", engine="ENUM", ref="4/C15",
@@ -124,7 +124,8 @@ CHECKS = {
                      "index macro and through the name lists; every entry's well-formedness conditions are evaluated; for every entry three copies are fetched, one "
                      "is scribbled over, the others and a fresh fetch compared, and all are released in every order in a leak-accounting and an ASan build. The crystal "
                      "catalogue is read again after the documented explicit insertion of crystals that sort first / in the middle / last. Every catalogue name is also looked up "
-                     "in 7 variants (case, padding, truncation, extension): a lookup that succeeds must return an entry of the catalogue.",
+                     "in 7 variants (case, padding, truncation, extension): a lookup that succeeds must return an entry of the catalogue; and all names of each catalogue are looked up in "
+                     "seven orders in one process (descending, successor- and predecessor-then-name, every second, shuffled, each twice, a failing lookup in between).",
                 note="Finite catalogues: the enumeration is complete. Macro names are bound to entry names by their alphanumeric skeleton."),
     "C04": dict(level="model_checking", engine="HIST", ref="4/C04",
                 technique="bounded-exhaustive enumeration of inputs, crystal-file line sequences and allocation histories (all release orders) on the real library under ASan/UBSan and per-call live-block accounting",
